@@ -224,7 +224,14 @@ func forNud(p *parser, t *token) *token {
 		return t
 	}
 
-	first := p.Expression(0, "{")
+	// any of the three clauses may be empty: "for ; cond; {", "for init; ; post {", "for ;; {"
+	clause := func() *token {
+		if p.Token.Symbol == ";" || p.Token.Symbol == "{" {
+			return symAtPos(p.Token.Pos, "~")
+		}
+		return p.Expression(0, "{")
+	}
+	first := clause()
 	if first.Symbol == "range" {
 		tok := first
 		tok.Append(blankAtPos(t.Pos))
@@ -256,9 +263,9 @@ func forNud(p *parser, t *token) *token {
 
 	t.Append(first)
 	p.Advance(";")
-	t.Append(p.Expression(0, "{"))
+	t.Append(clause())
 	p.Advance(";")
-	t.Append(p.Expression(0, "{"))
+	t.Append(clause())
 	t.Append(p.Block("block", "{", "}"))
 	// the init and post clauses are statements: a call there yields no value
 	for _, n := range []int{0, 2} {
